@@ -58,6 +58,29 @@ for trial in range(40):
             if (list(g1) if isinstance(other, list) else g1) != other or (list(v) if isinstance(other, list) else v) != other:
                 fail(f"after python set {other!r}, NT set {dflt!r}, python set {other!r}: attribute {g1!r}, topic {v!r}")
         if nt.getTopic(key(names[0], "es")).getTypeString() != "string[]": fail("type-hinted empty sequence tunable is not a string[] topic")
+# type hint wins over the default's natural type
+class Hinted:
+    gain: float = tunable(1)
+    ratio = tunable[float](2)
+    speeds: Sequence[float] = tunable([0, 1])
+h = Hinted(); setup_tunables(h, "hinted")
+for a, tstr in (("gain", "double"), ("ratio", "double"), ("speeds", "double[]")):
+    n += 1
+    ts = nt.getTopic(f"/components/hinted/{a}").getTypeString()
+    if ts != tstr: fail(f"type-hinted tunable {a} is a {ts} topic, the hint says {tstr}")
+h.gain = 0.25
+if h.gain != 0.25: fail(f"hinted.gain = {h.gain!r} after assigning 0.25")
+# a subclass redefining an inherited tunable: its default and writeDefault flag count
+class BaseT:
+    kp = tunable(0.5)
+    keep = tunable(1.0)
+class DerivedT(BaseT):
+    kp = tunable(0.9)
+    keep = tunable(2.0, writeDefault=False)
+nt_write("/components/derived/keep", "double", 42.0)
+d = DerivedT(); setup_tunables(d, "derived"); n += 2
+if d.kp != 0.9: fail(f"subclass-redefined tunable kp = {d.kp!r}, the subclass default is 0.9")
+if d.keep != 42.0: fail(f"subclass tunable keep (writeDefault=False) = {d.keep!r}, the pre-existing topic value 42.0 must be preserved")
 # feedbacks
 class Rot: pass
 class F:
@@ -75,12 +98,16 @@ class F:
     def get_count(self) -> "int": return 4
     @feedback
     def get_blob(self) -> bytes: return b"\x07"
+    @feedback
+    def target_rpm(self) -> float: return 9.5
+    @feedback
+    def budget_left(self) -> int: return 8
     def get_plain(self): return 0
 for prefix, owner in (("components", "fbc"), (None, "robot")):
     fbs = collect_feedbacks(F(), owner, prefix)
     for m, s in fbs: s(m())
     base = "/" + "/".join(([prefix] if prefix else []) + [owner])
-    want = {"angle": ("double", 1.5), "speed": ("int", 3), "renamed": ("string", "x"), "flag": ("boolean", True), "names": ("string[]", []), "count": ("int", 4), "blob": ("raw", b"\x07")}
+    want = {"angle": ("double", 1.5), "speed": ("int", 3), "renamed": ("string", "x"), "flag": ("boolean", True), "names": ("string[]", []), "count": ("int", 4), "blob": ("raw", b"\x07"), "target_rpm": ("double", 9.5), "budget_left": ("int", 8)}
     if len(fbs) != len(want): fail(f"{len(fbs)} feedbacks collected, expected {len(want)}")
     for k, (tstr, val) in want.items():
         n += 1
